@@ -349,6 +349,7 @@ func runPrio2Bubble(sc scenario) result {
 		res.vals = append(res.vals, "no-termination")
 	}
 	swallow()
+	res.vals = append(res.vals, "goroutines", fmt.Sprint(libGoroutines()))
 	return res
 }
 
